@@ -134,6 +134,10 @@ class MinimalImageDistance(RawDistance):
         """returns a list of electron-electron distances from an electron at position 'vec'
         configs will most likely be [nconfig,electron,dimension], and vec will be [nconfig,dimension]
         """
+        # first bring the displacement into the cell centered at the origin, so that the
+        # 27 neighboring images are enough also for points that are several cells apart
+        frac_disps = np.einsum("...ij,jk->...ik", d1, self._invvec)
+        d1 = np.einsum("...ij,jk->...ik", frac_disps - np.round(frac_disps), self._latvec)
         shifts = self.shifts.reshape((-1, *[1] * (len(d1.shape) - 1), 3))
         d1all = d1[np.newaxis] + shifts
         dists = np.sum(d1all**2, axis=-1)
